@@ -494,18 +494,35 @@ class Ref:
         """stats applied in sequence (Environments.impute with a list); reference computed pass by pass"""
         case = self.case
         kind, rows = self.kind, [r for r in self.rows]
-        exp = ImputeRef(kind, rows)
-        for st in stats:
-            exp = exp.step(st, case["ind"], case.get("using"))
-        self.compare_impute(exp, stats)
+        self.compare_branches(stats, stats)
         if self.fails and len(stats) > 1:
             # recorded defect: Environments.impute applies only the last statistic of a list
             alt = Ref(case, kind, rows, self.impl, self.label)
-            alt.compare_impute(ImputeRef(kind, rows).step(stats[-1], case["ind"], case.get("using")), stats[-1:])
+            alt.compare_branches(stats[-1:], stats[-1:])
             if all(f["sig"] == "impute-first-row-none-not-imputed" for f in alt.fails):
                 what = self.fails[0]["what"]
                 self.fails = alt.fails
                 self.fail("Environments.impute(%s) gave exactly the result of impute(%r) alone: %s" % (stats, stats[-1], what), "impute-list-only-last-applied")
+
+    def compare_branches(self, stats, label_stats):
+        """the reference may branch where the property leaves a choice (indicator of a scalar feature that has no
+        imputation): the result must meet one branch; the failures of the closest branch are reported"""
+        case = self.case
+        branches = [ImputeRef(self.kind, [r for r in self.rows])]
+        for st in stats:
+            branches = [b2 for b in branches for b2 in b.step(st, case["ind"], case.get("using"))][:16]
+        best = None
+        for b in branches:
+            t = Ref(case, self.kind, self.rows, self.impl, self.label)
+            t.compare_impute(b, label_stats)
+            rank = (any(f["sig"].startswith("impute-context-kind") for f in t.fails), len(t.fails))
+            if best is None or rank < best_rank:
+                best, best_rank = t, rank
+            if not t.fails:
+                break
+        self.fails += best.fails
+        self.demanded += best.demanded
+        self.tags |= best.tags
 
     def compare_impute(self, exp, stats):
         out = self.impl["out"]
@@ -522,15 +539,6 @@ class Ref:
                     p20 = True
         for i, o in enumerate(out):
             e = exp.rows[i]
-            if exp.kind == "scalar-or-pair":
-                if o["kind"] == "scalar":
-                    self.cmp_cell(i, 0, e["alt"][0], o["v"], st_label)
-                elif o["kind"] == "dense" and len(o["v"]) == 2:
-                    self.cmp_cell(i, 0, e["alt"][1][0], o["v"][0], st_label)
-                    self.cmp_cell(i, 1, e["alt"][1][1], o["v"][1], st_label)
-                else:
-                    self.fail("row %d: expected a scalar or [value, indicator], got %s" % (i, o), "impute-context-kind:%s:%s" % (kind0, st_label))
-                continue
             if o["kind"] != exp.kind:
                 self.fail("row %d: expected a %s context, got %s" % (i, exp.kind, o["kind"]), "impute-context-kind:%s:%s" % (kind0, st_label))
                 return
@@ -565,6 +573,8 @@ class Ref:
         self.demanded += 1
         kind0 = self.kind
         if is_oneof(e):
+            if any(is_num(c) and fr(c) == 0 for c in e["oneof"]):
+                self.tags.add("imputed-zero:" + kind0)
             if not any(self.val_eq(got, c) for c in e["oneof"]):
                 self.fail("row %d feature %r: expected %s of the window (one of %s), got %s" % (i, k, e["why"], [show(c) for c in e["oneof"]], show(got)),
                           self.impute_sig(e, got, st_label))
@@ -616,9 +626,7 @@ class ImputeRef:
     def step(self, st, ind, using):
         kind, rows = self.kind, self.rows
         if not rows or kind == "unknown":
-            return self
-        if kind == "scalar-or-pair":
-            return ImputeRef("unknown", rows, False, ())
+            return [self]
         orig = rows
         rows = [([resolve(v) for v in r] if kind == "dense" else [[k, resolve(v)] for k, v in r] if kind == "sparse" else resolve(r)) for r in rows]
         win = rows if using is None else rows[:using]
@@ -686,17 +694,18 @@ class ImputeRef:
                 new_rows.append(nr)
         if kind == "scalar":
             if bins:
-                return ImputeRef("dense", new_rows, True, ())
+                return [ImputeRef("dense", new_rows, True, ())]
             if optional:
                 # whether a feature without imputation gets an indicator is not pinned: value or [value, bit]
-                return ImputeRef("scalar-or-pair", [{"alt": [nv, [nv, V(1 if r is None else 0)]]} for nv, r in zip(new_rows, orig)], False, ())
-            return ImputeRef("scalar", new_rows, True, ())
+                return [ImputeRef("scalar", new_rows, True, ()),
+                        ImputeRef("dense", [[nv, V(1 if r is None else 0)] for nv, r in zip(new_rows, orig)], True, ())]
+            return [ImputeRef("scalar", new_rows, True, ())]
         if kind == "dense":
             if optional:
                 n0 = len(rows[0])
-                return ImputeRef("dense", [nr[:n0] for nr in new_rows], False, ())   # indicator columns not pinned
-            return ImputeRef("dense", new_rows, self.len_exact, ())
-        return ImputeRef("sparse", new_rows, True, self.optional_keys | {"%s_is_missing" % k for k in optional})
+                return [ImputeRef("dense", [nr[:n0] for nr in new_rows], False, ())]   # indicator columns not pinned
+            return [ImputeRef("dense", new_rows, self.len_exact, ())]
+        return [ImputeRef("sparse", new_rows, True, self.optional_keys | {"%s_is_missing" % k for k in optional})]
 
 
 # ------------------------------------------------------------------ the property
@@ -707,8 +716,8 @@ SCALES = ["minmax", "std", "iqr", "maxabs"]
 class C11(Property):
     id = "C11"
     prop_modules = ["CobaVerif.Props.C11"]
-    quick_n = 1500
-    thorough_n = 40000
+    quick_n = 6000
+    thorough_n = 150000
     search_n = 3000
     case_timeout = 60
     workers = 8
@@ -762,6 +771,10 @@ class C11(Property):
         elif r < 30:     # few distinct values (modes, ties)
             pool = [self.gen_number(rng, "int") for _ in range(rng.randint(1, 3))]
             col = [dict(rng.choice(pool)) for _ in range(n)]
+        elif r < 42:     # statistics that come out as exactly 0 (falsy results)
+            x = rng.randint(1, 6)
+            pool = rng.choice([[V(0), V(0), V(x), V(-x)], [V(0.0, "f"), V(0), V(0), V(x)], [V(x), V(-x)], [V(0)], [V(0), V(0), V(0), V(-x)]])
+            col = [dict(rng.choice(pool)) for _ in range(n)]
         else:
             style = rng.choice(["int", "int", "dyadic", "mixed", "mixed", "floatint", "bigint"])
             col = [self.gen_number(rng, style) for _ in range(n)]
@@ -803,11 +816,12 @@ class C11(Property):
         n = rng.choice([1, 2, 2, 3, 3, 4, 5, 6, 8, 12])
         m = rng.choice([1, 1, 2, 2, 3, 4])
         allow_nan = rng.chance(0.45 if op == "scale" else 0.08)
+        clean = rng.chance(0.3)          # a table without any missing value
         cols = []
         for _ in range(m):
             numeric = rng.chance(0.75)
             col = self.gen_numeric_column(rng, n) if numeric else self.gen_string_column(rng, n)
-            cols.append(self.sprinkle_missing(rng, col, numeric, allow_nan))
+            cols.append(col if clean else self.sprinkle_missing(rng, col, numeric, allow_nan))
         return n, m, cols
 
     def gen_using(self, rng, n):
@@ -916,12 +930,49 @@ class C11(Property):
         # lists of statistics
         cs.append({"op": "impute", "kind": "dense", "rows": [[n(1), V("a")], [None, None], [n(3), V("a")]], "stats": ["mean", "mode"], "ind": False, "using": None, "via": "env", "itype": "sim"})
         cs.append({"op": "impute", "kind": "dense", "rows": [[n(1), V("a")], [None, None], [n(3), V("a")]], "stats": ["mode", "mean"], "ind": True, "using": 2, "via": "env", "itype": "sim"})
+        # statistics that are exactly 0 (falsy in Python)
+        for kind, rows in (("scalar", [n(0), None, n(0), n(3)]), ("dense", [[n(0)], [None], [n(0)], [n(3)]]),
+                           ("sparse", [[["a", n(0)]], [["a", None]], [["a", n(0)]], [["a", n(3)]]]),
+                           ("scalar", [n(2), None, n(-2)]), ("sparse", [[["a", n(5)]], [["a", None]], [], [], []])):
+            for st in ("mean", "median", "mode"):
+                for ind in (False, True):
+                    cs.append({"op": "impute", "kind": kind, "rows": rows, "stats": [st], "ind": ind, "using": None, "via": "filter", "itype": "log"})
         # string scalar / string feature with a missing first value
         cs.append({"op": "impute", "kind": "scalar", "rows": [V("a"), None, V("b"), V("c")], "stats": ["median"], "ind": False, "using": None, "via": "filter", "itype": "sim"})
         cs.append({"op": "impute", "kind": "dense", "rows": [[None, n(1)], [V("a"), None], [V("b"), n(2)], [V("c"), n(2)]], "stats": ["median"], "ind": True, "using": None, "via": "filter", "itype": "sim"})
         cs.append({"op": "impute", "kind": "sparse", "rows": [[["a", V("x")]], [["a", None]]], "stats": ["mean"], "ind": False, "using": None, "via": "filter", "itype": "sim"})
         cs.append({"op": "scale", "kind": "scalar", "rows": [V("a"), None, V("b")], "shift": n(0), "scale": n(2), "using": None, "via": "filter", "itype": "sim"})
         return cs
+
+    def exhaustive(self, tier):
+        """small scope, complete: every 1-feature table of 1-3 interactions over {None, nan, 0, 1, 2.5} and over
+        {None, 'a', 'b'}, in the three container kinds, x every shift x scale / statistic x indicator, x using in {None,1,2}"""
+        import itertools
+        numeric = [None, NAN, V(0), V(1), V(2.5, "f")]
+        strings = [None, V("a"), V("b")]
+        tables = []
+        for alpha in (numeric, strings):
+            for ln in (1, 2, 3):
+                tables += [list(t) for t in itertools.product(alpha, repeat=ln)]
+        for col in tables:
+            for kind in ("scalar", "dense", "sparse"):
+                if kind == "scalar":
+                    rows = col
+                elif kind == "dense":
+                    rows = [[v] for v in col]
+                else:
+                    rows = [[["a", v]] for v in col]
+                for using in (None, 1, 2):
+                    if using is not None and using > len(col):
+                        continue
+                    base = {"kind": kind, "rows": rows, "using": using, "via": "filter", "itype": "sim", "container": "tuple"}
+                    for sh in (V(0), "min", "mean", "median"):
+                        for sc in (V(2), "minmax", "std", "iqr", "maxabs"):
+                            yield dict(base, op="scale", shift=sh, scale=sc)
+                    if not any(v == NAN for v in col):
+                        for st in ("mean", "median", "mode"):
+                            for ind in (False, True):
+                                yield dict(base, op="impute", stats=[st], ind=ind)
 
     # ---- twins: the same table in the other container kinds
     def twins(self, case):
@@ -1012,6 +1063,7 @@ class C11(Property):
         if impl.get("mutated"):
             fails.append(F("A", "the filter changed the interactions it was given (the model works on a copy): contexts before/after differ",
                            "A:input-mutated:%s" % op))
+        main_b_failed = any(f["kind"] == "B" for f in fails)
         # (B) agreement of the container kinds: the same table as dense / sparse / scalar contexts must meet the same reference
         for tkind, trows in self.twins(case):
             star = tkind.endswith("*")
@@ -1030,6 +1082,7 @@ class C11(Property):
                     else:
                         tref.check_impute(case["stats"])
             fails += tref.fails
+            tags += sorted(tref.tags)
             tags.append("twin:" + tk)
         changed = "out" in impl and self.changed(case, impl)
         nontrivial = ref.demanded > 0 and changed
@@ -1039,7 +1092,8 @@ class C11(Property):
         # (A) correspondence with the Lean model (skipped when the property itself already fails on this case:
         #     the model mirrors the repaired code, see notes/C11.md)
         model = None
-        if driver is not None and not any(f["kind"] == "B" for f in fails):
+        b_failed = main_b_failed
+        if driver is not None:
             req = {"op": op, "kind": kind, "using": case.get("using"), "rows": self.rows_to_lean(kind, rows)}
             if op == "scale":
                 req["shift"] = param_lean(case["shift"])
@@ -1050,14 +1104,33 @@ class C11(Property):
             skip = None
             if op == "impute" and any(v == NAN for v in flat):
                 skip = "nan in an Impute table (not modelled)"
+            if op == "impute" and len(case["stats"]) > 1 and kind == "scalar" and any(is_str(v) for v in flat):
+                skip = "scalar string contexts with a list of statistics (indicator of a feature without imputation is not pinned)"
             if skip:
                 tags.append("A-skipped")
             else:
                 ans = driver.ask(req)
                 model = ans["model"]
-                d = self.compare_model(case, impl, ans)
+                d = None if b_failed else self.compare_model(case, impl, ans)
+                if b_failed:
+                    tags.append("A-skipped:B-failed")
                 if d:
                     fails.append(F("A", "implementation and model differ: %s" % d[1], "A:%s:%s:%s" % (op, kind, d[0])))
+                # (C) the model itself against the exact reference (run-time guard of the theorems' plumbing); the two
+                #     recorded sparse-key-outside-window deviations are the `_partial` hypotheses and are not demanded
+                if "err" not in model:
+                    mimpl = {"n": len(model["rows"]), "others_ok": True, "out": [self.model_row(model["kind"], r) for r in model["rows"]]}
+                    cref = Ref(case, kind, rows, mimpl, "model")
+                    if cref.common():
+                        if op == "scale":
+                            cref.check_scale()
+                        else:
+                            cref.check_impute(case["stats"])
+                    for f in cref.fails:
+                        if f["sig"].endswith("sparse-key-outside-window"):
+                            tags.append("C:hyp-false")
+                            continue
+                        fails.append(F("C", "the Lean model does not meet the reference: %s" % f["what"], "C:" + f["sig"]))
         return {"fails": fails, "nontrivial": bool(nontrivial), "tags": tags, "impl": impl, "model": model}
 
     def changed(self, case, impl):
@@ -1078,6 +1151,14 @@ class C11(Property):
                 if o["kind"] != "scalar" or not Ref.val_eq(o["v"], r):
                     return True
         return False
+
+    @staticmethod
+    def model_row(kind, r):
+        if kind == "dense":
+            return {"kind": "dense", "v": [from_lean(v) for v in r]}
+        if kind == "sparse":
+            return {"kind": "sparse", "v": sorted(([k, from_lean(v)] for k, v in r), key=lambda kv: kv[0])}
+        return {"kind": "scalar", "v": from_lean(r)}
 
     def rows_to_lean(self, kind, rows):
         if kind == "dense":
